@@ -14,6 +14,7 @@ from harness import catalogue, formulas as F, tlc
 from harness import project as pj
 from harness.catalogue import lit
 from harness.checks.c03 import gen_trees
+from harness.checks.c21 import tuples
 from harness.common import Check, chunks, pmap, tmap, NPROC
 from harness.formulas import FA, EX, AND, OR, NOT, COUNT, SMT, PRED, M, MCH, MNT
 from harness.smt import A, I, S, V
@@ -28,8 +29,10 @@ TIERS = {
 
 NULLSTART = {"<start>": ["<S>"], "<S>": ["<A><B>"], "<A>": ["a<A>", ""], "<B>": ["b", ""]}
 # name -> grammar, tree enumeration bounds (height, nodes), bound L of the Kleene language (exact membership up to L)
+DIGITS = {"<start>": ["<int>"], "<int>": ["<digit><int>", "<digit>"], "<digit>": ["0", "1", "2"]}   # members that are also JSON values
 GRAMMARS = {
-    "ASSGN2": dict(g=catalogue.ASSGN2, depth=7, nodes=30, L=15),
+    "ASSGN2": dict(g=catalogue.ASSGN2, depth=7, nodes=30, L=24),
+    "DIGITS": dict(g=DIGITS, depth=6, nodes=14, L=5),
     "NULLSTART": dict(g=NULLSTART, depth=7, nodes=14, L=8),
     "CSVISH": dict(g=catalogue.CSVISH, depth=7, nodes=20, L=7),
 }
@@ -49,6 +52,10 @@ def formulas_for(name):
                 FA("<A>", "x", SMT(A("<=", A("str.len", V("x")), I(1)))),
                 COUNT("start", "<A>", 2),
                 EX("<A>", "x", lit("x", ""))]
+    if name == "DIGITS":
+        return [EX("<digit>", "d", lit("d", "1")),
+                FA("<digit>", "d", NOT(lit("d", "0"))),
+                COUNT("start", "<digit>", 2)]
     if name == "CSVISH":
         return [COUNT("start", "<field>", 2),
                 EX("<field>", "f", lit("f", "yy")),
@@ -153,9 +160,13 @@ def classify(chk, wd, P):
     """per grammar: trees (TLC-enumerated), candidate non-member strings, and TLC's verdicts"""
     units = []
     for name, d in GRAMMARS.items():
-        trees = gen_trees(chk, wd, "c19-" + name, d["g"], d["depth"], d["nodes"], P["cap"])
-        trees = [t for t in trees if len(pj.jyield(t)) <= d["L"]]
+        trees = gen_trees(chk, wd, "c19-" + name, d["g"], d["depth"], d["nodes"], 10 ** 9)
+        trees = sorted((t for t in trees if len(pj.jyield(t)) <= d["L"]), key=lambda t: (len(pj.jyield(t)), json.dumps(t, sort_keys=True)))
         rnd = random.Random(chk.seed * 31 + len(name))
+        if len(trees) > P["cap"]:       # keep the shortest ones (empty string, single statements) and a seeded sample of the rest
+            trees = trees[:8] + rnd.sample(trees[8:], P["cap"] - 8)
+        for t in trees:
+            pj.renumber(t)
         forms = formulas_for(name)
         strings = [s for s in nonmember_candidates({pj.jyield(t) for t in trees}, rnd) if len(s) <= d["L"]]
         units.append({"gn": name, "trees": trees, "forms": forms, "strings": [pj.cps(s) for s in strings]})
@@ -172,11 +183,11 @@ def classify(chk, wd, P):
     for u in units:
         cat[u["gn"]]["sat"] = {f: [None] * len(u["trees"]) for f in range(len(u["forms"]))}
         cat[u["gn"]]["mem"] = [None] * len(u["strings"])
-    for _, k, f, t, x in r.tuples("SAT"):
+    for _, k, f, t, x in tuples(r, "SAT"):
         cat[units[k - 1]["gn"]]["sat"][f - 1][t - 1] = x == "T"
-    for _, k, s, x in r.tuples("MEM"):
+    for _, k, s, x in tuples(r, "MEM"):
         cat[units[k - 1]["gn"]]["mem"][s - 1] = x == "T"
-    for _, k, x in r.tuples("TREES"):
+    for _, k, x in tuples(r, "TREES"):
         if x != "T":
             raise RuntimeError("TLC-enumerated tree rejected by ValidTree for %s" % units[k - 1]["gn"])
     for name, c in cat.items():
@@ -279,6 +290,7 @@ def select_vectors(vectors, P, rnd):
     core = [v for v in vectors if v["cmd"] == "check" and v["g"] == "ok" and v["gvia"] == "file" and v["c"] in ("one", "two")]
     core += [v for v in vectors if v["ik"] == "file" and v["ic"] == "empty" and v["g"] == "ok" and v["gvia"] == "file"
              and v["c"] == "one" and v["cvia"] == "file" and v["cmd"] != "check"]
+    core += [v for v in vectors if v["cmd"] == "solve" and v["g"] == "ok"]
     keyf = lambda v: json.dumps(v, sort_keys=True)
     seen = {keyf(v) for v in core}
     rest = sorted((v for v in vectors if keyf(v) not in seen), key=keyf)
@@ -288,6 +300,21 @@ def select_vectors(vectors, P, rnd):
 
 
 # ------------------------------------------------------------------ judging
+def traceback_cause(o):
+    """names the root cause of a traceback for the violation signature (one signature per root cause); reads the
+    recorded stderr only, decides nothing"""
+    err, exc, where = o.get("stderr_tail", ""), o.get("exc", ""), o.get("where", "")
+    if exc == "IndexError" and where == "cli.py:get_input_string":
+        return "empty-input"
+    if "safe()" in err and exc == "TypeError":
+        return "returns-safe-api"
+    if "Grammar has no rules for" in err:
+        return "illformed-grammar"
+    if "cli.py:get_input_string" in o.get("frames", []):      # the JSON branch of get_input_string (.map does not catch)
+        return "json-input-not-a-valid-tree"
+    return "%s@%s" % (exc or "?", where or "?")
+
+
 TLC_CASE_KEYS = ("id", "cmd", "g", "c", "ik", "gn", "empty", "ambiguous", "text", "tree", "has_tree", "forms")
 OBS_KEYS = ("status", "out_empty", "err_empty", "tb", "timeout")
 
@@ -308,7 +335,7 @@ def judge_cases(chk, wd, cases):
     judged = 0
     for r in rs:
         chk.add_tlc(r)
-        for _, cid, row, verdict, mem, sat in r.tuples("CASE"):
+        for _, cid, row, verdict, mem, sat in tuples(r, "CASE"):
             judged += 1
             c = byid[cid]
             c["row"], c["verdict"], c["member"], c["sat"] = row, verdict, mem, sat
@@ -334,10 +361,11 @@ def judge_cases(chk, wd, cases):
             if verdict != "OK":
                 o = c["obs"]
                 if verdict == "traceback":
-                    sig = {"clause": "traceback", "exc": o["exc"], "where": o["where"]}
+                    sig = {"clause": "traceback", "cause": traceback_cause(o)}
+                elif verdict == "status" and row == "check-accept" and c["ik"] == "file" and pj.text(c["text"]).endswith("\n"):
+                    sig = {"clause": "status", "cause": "trailing-newline-stripped"}
                 else:
-                    sig = {"clause": verdict, "cmd": c["cmd"], "row": row, "status": o["status"], "ik": c["ik"],
-                           "text_ends_with_newline": pj.text(c["text"]).endswith("\n")}
+                    sig = {"clause": verdict, "cause": "other", "cmd": c["cmd"], "row": row, "status": o["status"], "ik": c["ik"]}
                 chk.mismatch(sig, {"kind": "single", "case": c, "command": "python -m isla " + " ".join(map(repr, c["argv"]))})
     if judged != len(cases):
         raise RuntimeError("TLC judged %d of %d runs" % (judged, len(cases)))
@@ -428,7 +456,7 @@ def run_pipes(chk, wd, pipes):
     chk.add_tlc(r)
     byid = {p["id"]: p for p in recs}
     judged = 0
-    for _, pid, verdict, nout, bad in r.tuples("PIPE"):
+    for _, pid, verdict, nout, bad in tuples(r, "PIPE"):
         judged += 1
         p = byid[pid]
         if verdict == "NOT-A-BEHAVIOUR":
@@ -452,10 +480,12 @@ def run_pipes(chk, wd, pipes):
                        and (e["tb"] if clause.endswith("traceback") else e["status"] != 0)]
                 e = evs[0] if evs else p["events"][0]
                 if clause.endswith("traceback"):
-                    sig = {"clause": "traceback", "exc": e["exc"], "where": e["where"]}
+                    sig = {"clause": "traceback", "cause": traceback_cause(e)}
+                elif p["checkvia"] == "file" and p["mode"] == "dir-txt" and e.get("output", "").endswith("\n"):
+                    sig = {"clause": clause, "cause": "trailing-newline-stripped"}
                 else:
-                    sig = {"clause": clause, "producer": p["producer"], "mode": p["mode"], "checkvia": p["checkvia"],
-                           "status": e["status"], "output_ends_with_newline": e.get("output", "").endswith("\n")}
+                    sig = {"clause": clause, "cause": "other", "producer": p["producer"], "mode": p["mode"], "checkvia": p["checkvia"],
+                           "status": e["status"]}
                 chk.mismatch(sig, {"kind": "pipe", "pipe": {k: v for k, v in p.items()}, "first_failing_event": e})
     if judged != len(recs):
         raise RuntimeError("TLC judged %d of %d pipelines" % (judged, len(recs)))
@@ -485,11 +515,22 @@ def main(tier):
         "PYTHONWARNINGS=ignore in the child processes, so that 'stderr is non-empty' means an error message and not a deprecation warning",
         "exit codes of solve/parse/repair/mutate outside the missing/malformed rows are not fixed by the statement and not judged"]
     wd = tlc.workdir("c19")
+    import time
+    t0 = time.time()
+    stage = chk.cov.setdefault("stage_seconds", {})
+
+    def lap(name):
+        nonlocal t0
+        stage[name] = round(time.time() - t0, 1)
+        t0 = time.time()
     try:
         explore_machine(chk, wd, P["pdepth"])
+        lap("explore_pipe_machine")
         vectors, plans = gen_vectors(chk, wd)
         chk.cov["vectors_total"] = len(vectors)
+        lap("gen_vectors")
         cat = classify(chk, wd, P)
+        lap("enumerate_trees_and_classify")
         rnd = random.Random(chk.seed + 19)
         sel = select_vectors(vectors, P, rnd)
         chk.cov["vectors_run"] = len(sel)
@@ -498,7 +539,9 @@ def main(tier):
             for v in sel:
                 cases.append(materialise(v, cat, rnd, len(cases) + 1))
         run_singles(chk, wd, cases)
+        lap("single_runs_and_judging")
         run_pipes(chk, wd, build_pipes(plans, cat, P, rnd))
+        lap("pipelines_and_judging")
     finally:
         shutil.rmtree(wd, ignore_errors=True)
     return chk.finish(exhaustive=(tier == "thorough"))
@@ -527,3 +570,79 @@ def replay(path):
     finally:
         shutil.rmtree(wd, ignore_errors=True)
     return chk.finish()
+
+
+# ------------------------------------------------------------------ self-test of the binding (./check C19 --selftest)
+def selftest():
+    """synthetic records: the judge must accept the conforming observation of each row and reject a corrupted one"""
+    from harness.treeobj import N, T
+    tree = N("<start>", N("<stmt>", N("<assgn>", N("<var>", T("a")), T(" := "), N("<rhs>", N("<digit>", T("1"))))))
+    pj.renumber(tree)
+    f_sat, f_unsat = formulas_for("ASSGN2")[0], formulas_for("ASSGN2")[4]      # exists x = "a := 1"; exists <var> = "b"
+
+    def case(cmd, g, c, ik, forms, obs, text="a := 1", has_tree=True, empty=False, ambiguous=False, t=None):
+        o = {"status": 0, "out_empty": False, "err_empty": True, "tb": False, "timeout": False, "exc": "", "where": ""}
+        o.update(obs)
+        return {"cmd": cmd, "g": g, "c": c, "ik": ik, "gn": "ASSGN2", "empty": empty, "ambiguous": ambiguous, "text": pj.cps(text),
+                "tree": t or (tree if has_tree else DUMMY_TREE), "has_tree": has_tree, "forms": forms, "obs": o, "argv": [cmd], "files": {}}
+    E = {"err_empty": False}
+    table = [
+        (case("check", "ok", "one", "file", [f_sat], {"status": 0}), "OK"),
+        (case("check", "ok", "one", "file", [f_sat], {"status": 1}), "status"),
+        (case("check", "ok", "two", "string", [f_sat, f_unsat], {"status": 1}), "OK"),
+        (case("check", "ok", "two", "string", [f_sat, f_unsat], {"status": 0}), "status"),
+        (case("check", "ok", "one", "json", [f_sat], {"status": 0}), "OK"),
+        (case("check", "ok", "one", "json", [f_sat], {"status": 1, "tb": True}), "traceback"),
+        (case("check", "ok", "one", "file", [f_sat], {"status": 1}, text="a := ", has_tree=False), "OK"),
+        (case("check", "ok", "one", "file", [f_sat], {"status": 0}, text="a := ", has_tree=False), "status"),
+        (case("check", "ok", "one", "file", [f_sat], {"status": 1}, text="", has_tree=False, empty=True), "OK"),
+        (case("check", "ok", "one", "file", [f_sat], {"status": 1, "tb": True}, text="", has_tree=False, empty=True), "traceback"),
+        (case("check", "none", "one", "file", [f_sat], dict(E, status=2)), "OK"),
+        (case("check", "none", "one", "file", [f_sat], dict(E, status=1)), "status"),
+        (case("parse", "ok", "one", "none", [f_sat], dict(E, status=2)), "OK"),
+        (case("parse", "ok", "one", "none", [f_sat], dict(E, status=0)), "status"),
+        (case("solve", "bad", "one", "none", [f_sat], dict(E, status=65)), "OK"),
+        (case("solve", "bad", "one", "none", [f_sat], {"status": 65, "err_empty": True}), "no-message"),
+        (case("repair", "ok", "two_onebad", "string", [f_sat], dict(E, status=65)), "OK"),
+        (case("repair", "ok", "two_onebad", "string", [f_sat], dict(E, status=2)), "status"),
+        (case("mutate", "bad", "one", "none", [f_sat], dict(E, status=2)), "OK"),
+        (case("mutate", "bad", "one", "none", [f_sat], dict(E, status=65)), "OK"),
+        (case("mutate", "bad", "one", "none", [f_sat], dict(E, status=1)), "status"),
+        (case("check", "ok", "none", "file", [], dict(E, status=2)), "OK"),
+        (case("repair", "ok", "one", "string", [f_sat], {"status": 1}), "OK"),
+        (case("repair", "ok", "one", "string", [f_sat], {"status": 1, "tb": True}), "traceback"),
+        (case("check", "illformed", "one", "file", [f_sat], {"status": 1, "tb": True}), "traceback"),
+        (case("check", "ok", "one", "file", [f_sat], {"status": 1}, ambiguous=True), "OK"),
+    ]
+    cases = [dict(c, id=k + 1) for k, (c, _) in enumerate(table)]
+    chk = Check(PID, "quick")
+    wd = tlc.workdir("c19s")
+    bad = 0
+    try:
+        judge_cases(chk, wd, cases)
+        # pipelines: accepted / rejected / not a behaviour
+        ev = lambda a, **kw: dict({"a": a, "spec": 1, "status": 0, "tb": False, "outs": 0, "file": 0, "timeout": False}, **kw)
+        pipes = [([ev("solve", outs=2), ev("check", file=1), ev("check", file=2)], "OK"),
+                 ([ev("solve", outs=2), ev("check", file=1), ev("check", file=2, status=1)], "MISMATCH"),
+                 ([ev("parse", outs=1), ev("check", file=1, status=1, tb=True)], "MISMATCH"),
+                 ([ev("solve", outs=2), ev("check", file=1)], "NOT-A-BEHAVIOUR"),
+                 ([ev("solve", outs=1), ev("check", file=2)], "NOT-A-BEHAVIOUR"),
+                 ([ev("solve", outs=0, status=1, tb=True)], "MISMATCH")]
+        cf = os.path.join(wd, "pipes.json")
+        with open(cf, "w") as f:
+            json.dump({"grammars": grammars_json(), "mdepth": MDEPTH, "pipes": [{"id": k + 1, "events": e} for k, (e, _) in enumerate(pipes)]}, f)
+        r = tlc.run_tlc("MC_C19", "CONSTANTS PDepth = 1\nINIT TInit\nNEXT TNext\nINVARIANT PipesJudged\nCHECK_DEADLOCK FALSE\n",
+                        env={"CASE_FILE": cf}, wd=sub(wd, "pipes"), xmx="2g", timeout=600)
+        got = {pid: v for _, pid, v, _, _ in tuples(r, "PIPE")}
+        for k, (_, want) in enumerate(pipes):
+            if got.get(k + 1) != want:
+                bad += 1
+                print("SELFTEST-FAIL pipe", k + 1, "expected", want, "got", got.get(k + 1))
+    finally:
+        shutil.rmtree(wd, ignore_errors=True)
+    for c, (_, want) in zip(cases, table):
+        if c.get("verdict") != want:
+            bad += 1
+            print("SELFTEST-FAIL", c["cmd"], c["g"], c["c"], c["ik"], c["obs"]["status"], "expected", want, "got", c.get("verdict"), c.get("row"))
+    print("C19 selftest: %d records + 6 pipelines, %d unexpected" % (len(cases), bad))
+    return 2 if bad else 0
